@@ -45,6 +45,12 @@ EXT_JITTER_TEXT = (" For rand_jitter all of JitterRng's logic (random_loop_cnt โ
                    "from /repo's current source as definitions in the timer monad (tools/rs2lean_tm.py) and proved equal to the model for all "
                    "inputs and all timer scripts (ExtTie.JitterRng.*; C14: the census of partial operations equals what Checked.Jitter accounts for); "
                    "abstractions (black_box, dead-code elimination, scratch-memory check, skipped log macros) in DESIGN.md ยง3b Extension.")
+EXT_RC = {"C02", "C03", "C05", "C08", "C09", "C10", "C14"}
+EXT_RC_TEXT = (" The functions of rand_core 0.9.5 that the crates delegate to (impls::next_u64_via_u32 / fill_bytes_via_next / fill_via_chunks, "
+               "le::read_u32_into / read_u64_into, BlockRng and BlockRng64 with their SeedableRng impl, the SeedableRng defaults seed_from_u64 / "
+               "from_rng / try_from_rng) are translated from the cargo registry source (tools/rs2lean_rc.py; version and sha256 in the evidence) and "
+               "proved equal to the model (ExtTie.RandCore*), and so are the wrapper types Hc128Rng / IsaacRng / Isaac64Rng, the hand-written "
+               "PartialEq impls and XorShiftRng::from_rng (DESIGN.md ยง3b, Extension: rand_core and the wrapper types).")
 def main():
     checks = []
     for pid, (text, tech) in sorted(T.items()):
@@ -56,6 +62,15 @@ def main():
             text = "[theorems not landed yet: only the correspondence check runs] " + text
             tech = "model/code correspondence check (Lean theorems pending)"
         note = NOTE
+        if pid in EXT_RC:
+            text += EXT_RC_TEXT
+            if pid == "C10":
+                text += (" A hand-written Clone / PartialEq method of a type under the tie that no correspondence theorem speaks about is a "
+                         "broken obligation (unmodelled); a broken obligation with no failing pair among the quick cases runs the thorough "
+                         "grid of clone / == pairs.")
+            if "translator-regenerated" not in tech:
+                tech += " + translator-regenerated correspondence theorems (rs2lean)"
+            note = NOTE + EXT_NOTE
         if pid in EXT_BLOCK:
             text += EXT_BLOCK_TEXT
             tech += " + translator-regenerated correspondence theorems (rs2lean)"
@@ -77,7 +92,7 @@ def main():
         hooks=dict(guard="rngs_verif", enable='RUSTFLAGS="--cfg rngs_verif --check-cfg cfg(rngs_verif)" cargo build --offline (harness crate, path deps on /repo crates)',
                    baseline_off_cmd="cd /repo && cargo test --workspace --no-fail-fast --offline", source_commits=["d9042f5"], add_only=True),
         engines=[dict(name="lean-proof+tie", path="tools/check.py", serves_properties=sorted(T),
-                      kind_free_text="Lean 4 theorems about a hand-written executable model (lean/Rngs) + two ties of the model to /repo's current tree on every run: (1) differential correspondence check of the model (lean modeldriver) and the real crates (harness); (2) for rand_xoshiro / rand_xorshift and the block cores of rand_hc / rand_isaac a translator (tools/rs2lean.py) regenerates Lean definitions from the source and Lean proves them equal to the model (tools/exttie.py)")],
+                      kind_free_text="Lean 4 theorems about a hand-written executable model (lean/Rngs) + two ties of the model to /repo's current tree on every run: (1) differential correspondence check of the model (lean modeldriver) and the real crates (harness); (2) for all five crates and the rand_core 0.9.5 functions they use a translator (tools/rs2lean.py, rs2lean_tm.py, rs2lean_rc.py) regenerates Lean definitions from the source and Lean proves them equal to the model (tools/exttie.py)")],
         checks=checks, not_applicable=[],
         notes="fix commits in /repo: 5da9a78 (C14), abe6ce0 (C13); known finding: C16 (known_findings.json)")
     json.dump(m, open(os.path.join(V, "MANIFEST.json"), "w"), indent=1)
